@@ -200,7 +200,15 @@ class ResponseHandler(BaseProtocol, DataQueue[tuple[RawResponseMessage, StreamRe
     def resume_reading(self, resume_parser: bool = True) -> None:
         was_paused = self._reading_paused
         super().resume_reading(resume_parser)
-        if was_paused:
+        # Handling the held-back data may have paused reading again, or finished
+        # the response (the connection may even be back in the pool by now):
+        # only wait for the socket if there is still something to wait for.
+        if (
+            was_paused
+            and not self._reading_paused
+            and self._payload is not None
+            and not self._payload.is_eof()
+        ):
             self._reschedule_timeout()
 
     def set_exception(
